@@ -56,15 +56,15 @@ Ltac lencond :=
   end.
 Ltac fn H := pose proof kw_lens; start H; try solve [dead]; repeat (replay2; try lencond).
 
-Lemma lex_ident_det l res : lex_ident ul ud inp1 n1 base l = Ok res -> l_pos (snd res) + M <= h -> fst res <> LDone ->
+Lemma lex_ident_det l res : lex_ident ul ud inp1 n1 base l = Ok res -> l_pos (snd res)+ m_ident <= h -> fst res <> LDone ->
   lex_ident ul ud inp2 n2 base l = Ok res.
 Proof using All. intros H Hb Hl. unfold lex_ident, emit_to in *. fn H. Qed.
 
-Lemma lex_css_det l res : lex_css inp1 n1 base l = Ok res -> l_pos (snd res) + M <= h -> fst res <> LDone ->
+Lemma lex_css_det l res : lex_css inp1 n1 base l = Ok res -> l_pos (snd res)+ m_css <= h -> fst res <> LDone ->
   lex_css inp2 n2 base l = Ok res.
 Proof using All. intros H Hb Hl. unfold lex_css, double_close, emit_to in *. fn H. Qed.
 
-Lemma lex_number_det l res : lex_number ul ud inp1 n1 base l = Ok res -> l_pos (snd res) + M <= h -> fst res <> LDone ->
+Lemma lex_number_det l res : lex_number ul ud inp1 n1 base l = Ok res -> l_pos (snd res)+ m_number <= h -> fst res <> LDone ->
   l_start l <= l_pos l -> lex_number ul ud inp2 n2 base l = Ok res.
 Proof using All.
   intros H Hb Hl Hst. unfold lex_number, scan_number, scan_hex, scan_mantissa, scan_exponent, accept_run, is_alnum, emit_to in *. fn H.
